@@ -83,7 +83,8 @@ pub fn render_matches(plan: &Plan, use_color: bool) -> String {
                         // Print the line with the match highlighted with green background
                         // Print text before the match
                         if col > 0 {
-                            write!(output, "{}", &line_before[..col]).unwrap();
+                            // (byte columns of the raw line; the text may have been decoded lossily)
+                            write!(output, "{}", line_before.get(..col).unwrap_or("")).unwrap();
                         }
 
                         // Print the highlighted match
@@ -95,13 +96,14 @@ pub fn render_matches(plan: &Plan, use_color: bool) -> String {
                                 Style::new()
                                     .on(AnsiColor::Rgb(0x00, 0xA9, 0x58))  // Same green as diff highlights
                                     .fg(AnsiColor::Rgb(0xFF, 0xFF, 0xFF))
-                                    .paint(&line_before[col..actual_end])
+                                    .paint(line_before.get(col..actual_end).unwrap_or(""))
                             )
                             .unwrap();
 
                             // Print text after the match
                             if actual_end < line_before.len() {
-                                write!(output, "{}", &line_before[actual_end..]).unwrap();
+                                write!(output, "{}", line_before.get(actual_end..).unwrap_or(""))
+                                    .unwrap();
                             }
                         }
                         writeln!(output).unwrap();
